@@ -237,7 +237,7 @@ func (s *Service) signProposalData(ctx context.Context,
 	*api.VersionedSignedProposal,
 	error,
 ) {
-	bodyRoot, err := proposal.BodyRoot()
+	bodyRoot, err := proposalBodyRoot(proposal)
 	if err != nil {
 		return nil, errors.Wrap(err, "failed to calculate hash tree root of block body proposal")
 	}
@@ -326,6 +326,22 @@ func (s *Service) signProposalData(ctx context.Context,
 	}
 
 	return signedProposal, nil
+}
+
+// proposalBodyRoot calculates the hash tree root of the body of a proposal.
+// The proposal is whatever the beacon node sent, as decoded by the client library.  The library's
+// decoders accept null members (a null execution payload, a null entry in a list of operations)
+// that its hashing code dereferences, so a failure there is reported as an error rather than
+// being allowed to bring down the process.
+func proposalBodyRoot(proposal *api.VersionedProposal) (root phase0.Root, err error) {
+	defer func() {
+		if r := recover(); r != nil {
+			root = phase0.Root{}
+			err = fmt.Errorf("malformed proposal body: %v", r)
+		}
+	}()
+
+	return proposal.BodyRoot()
 }
 
 func (s *Service) auctionBlock(ctx context.Context,
